@@ -294,6 +294,18 @@ class C13(core.PropBase):
                     yield {"k": "b", "s": f"-{b}--{a}:2" if a else f"-{b}-0:2"}
         for _ in range(20000 if thorough else 3000):
             yield {"k": "b", "s": rand_big(rng)}
+        # 3c. expressions of a thousand and more elements (nothing merges: squares, alternating gaps): recursion budgets
+        #     and quadratic loops show only here
+        for k in ((600, 1100, 2500, 4000) if thorough else (1100, 2500)):
+            sq = [i * i for i in range(k)]
+            yield {"k": "l", "vs": sq}
+            yield {"k": "l", "vs": [str(v) for v in reversed(sq)]}
+            alt, v = [], 0
+            for i in range(k):
+                v += 2 if i % 2 else 3
+                alt.append(v)
+            yield {"k": "s", "s": ",".join(str(v) for v in alt)}
+            yield {"k": "s", "s": ",".join(f"{5 * i}-{5 * i + 1}" for i in range(k))}
         # 4. str(from_list(random list)) fed back as an expression, and a few mutated expressions
         #    (c08.cap_digits bounds the digits per string: these requests enumerate the values and carry them
         #     as OCaml ints; longer numbers go through the long-expression family above)
